@@ -185,6 +185,13 @@ func genMod(t *rapid.T, st *genState, idx int, prev []Mod) Mod {
 			m.Deps = append(m.Deps, j)
 		}
 	}
+	// now and then the module also depends on a fork (same content, other name) of a dependency
+	if len(m.Deps) > 0 && rapid.IntRange(0, 7).Draw(t, lbl+"-twin") == 0 {
+		cl := closure(append(append([]Mod{}, prev...), m))[idx]
+		for k := 0; k < rapid.IntRange(1, 2).Draw(t, lbl+"-ntwins"); k++ {
+			m.Twins = append(m.Twins, rapid.SampledFrom(cl).Draw(t, lbl+"-twinof"))
+		}
+	}
 	// anchor
 	for k := 0; ; k++ {
 		p := genProtoPath(t, lbl+"-anchor", true)
@@ -299,6 +306,12 @@ func genView(t *rapid.T, lbl string, mods []Mod) View {
 		anyTarget = anyTarget || mv.Target
 		v.Mods[i] = mv
 	}
+	// a fork can only be a pinned dependency key: modules with twins are remote
+	for i := range mods {
+		if len(mods[i].Twins) > 0 {
+			v.Mods[i].Remote = true
+		}
+	}
 	// remote modules can only depend on remote modules: close the flag downwards
 	for i := len(mods) - 1; i >= 0; i-- {
 		if v.Mods[i].Remote {
@@ -319,7 +332,10 @@ func genView(t *rapid.T, lbl string, mods []Mod) View {
 	if !anyTarget {
 		v.Mods[len(mods)-1].Target = true
 	}
-	v.RemoteVia = rapid.SampledFrom([]string{"omni", "wrap", "store-dir", "store-tar"}).Draw(t, lbl+"-via")
+	v.RemoteVia = rapid.SampledFrom([]string{"omni", "wrap", "store-dir", "store-tar", "pinned"}).Draw(t, lbl+"-via")
+	if hasTwins(mods) {
+		v.RemoteVia = "pinned" // the registry stand-in cannot hold two modules with the same .proto paths
+	}
 	if rapid.IntRange(0, 2).Draw(t, lbl+"-retarget") == 0 {
 		for i := range mods {
 			if rapid.Bool().Draw(t, lbl+"-rt") {
@@ -441,6 +457,12 @@ func genPert(t *rapid.T, mods []Mod, st *genState) ([]Mod, Pert) {
 	if len(nonIdx) > 0 {
 		kinds = append(kinds, "remove-nonmodule", "modify-nonmodule")
 	}
+	if len(m.Deps) > 0 {
+		kinds = append(kinds, "add-twin-dep")
+	}
+	if len(m.Twins) > 0 {
+		kinds = append(kinds, "remove-twin-dep", "remove-twin-dep")
+	}
 	kind := rapid.SampledFrom(kinds).Draw(t, "pert-kind")
 	p := Pert{Kind: kind, Mod: ti}
 	removeAt := func(k int) {
@@ -448,6 +470,14 @@ func genPert(t *rapid.T, mods []Mod, st *genState) ([]Mod, Pert) {
 	}
 	switch kind {
 	case "none":
+	case "add-twin-dep":
+		d := rapid.SampledFrom(closure(mods)[ti]).Draw(t, "pert-twinof")
+		m.Twins = append(m.Twins, d)
+		p.Note = fmt.Sprintf("also depend on a fork of module %d", d)
+	case "remove-twin-dep":
+		k := rapid.IntRange(0, len(m.Twins)-1).Draw(t, "pert-twin")
+		p.Note = fmt.Sprintf("no longer depend on the fork of module %d", m.Twins[k])
+		m.Twins = append(m.Twins[:k:k], m.Twins[k+1:]...)
 	case "flip":
 		k := rapid.SampledFrom(withTail).Draw(t, "pert-file")
 		f := &m.Files[k]
